@@ -75,6 +75,9 @@ pub enum Step {
     Extra(XOp),
     RestartJson,
     RestartDb,
+    /// the documented repair step called on a live object (it is public API; it must be
+    /// harmless there)
+    FixImport,
 }
 
 #[derive(Clone, Debug, Serialize, Deserialize, PartialEq, Eq, Hash)]
@@ -326,6 +329,10 @@ impl Obj {
                 self.restart_db();
                 Answer { sem: "restart".into(), raw: "restart-db".into() }
             }
+            Step::FixImport => {
+                self.adf.fix_import();
+                Answer { sem: "fix_import".into(), raw: "fix_import".into() }
+            }
         })
     }
 }
@@ -409,6 +416,10 @@ impl Scenario for History {
         let mut steps = Vec::new();
         let mut extras = 0usize;
         for _ in 0..len {
+            if rng.chance(1, 40) {
+                steps.push(Step::FixImport);
+                continue;
+            }
             let s = match rng.below(if with_restarts { 24 } else { 20 }) {
                 0 => Step::Grounded,
                 1 => Step::Complete,
@@ -716,6 +727,10 @@ impl Scenario for History {
         out
     }
 
+    fn nondeterminism_is_violation(&self) -> bool {
+        self.property == "C11"
+    }
+
     fn components(&self) -> serde_json::Value {
         serde_json::json!({
             "real": ["adf_bdd::adf::Adf (every public semantics, counting and nogood entry point), adf_bdd::obdd::Bdd (operations, restrict, counting, dependency queries), serde export/import + fix_import, Bdd::from(Vec<BddNode>), Adf::from((VarContainer,Bdd,Vec<Term>)), parser, biodivine bridge — all compiled from /repo/lib/src"],
@@ -745,6 +760,7 @@ fn answer_kind(step: &Step) -> &'static str {
         Step::VarDeps(_) | Step::PassiveImpact(_) | Step::ActiveImpact(_) => "dependencies",
         Step::Extra(_) => "extra",
         Step::RestartJson | Step::RestartDb => "restart",
+        Step::FixImport => "fix_import",
     }
 }
 
